@@ -12,6 +12,14 @@ CLAIMED = {
  "C07": ("all schedules of programs with 1-2 restart requests (Addr::restart, Context::restart) at every position among sends/calls, three strategies, start failure on restart, timers registered in started() and in handlers on the virtual clock; incarnation-bounds, strategy semantics, state carried/reset and stale-timer clauses on every execution", ""),
  "C08": ("all schedules (lock acquisitions are scheduling points) of registry histories of 1-3 clients; every complete execution's history is checked by brute force for a linearization against a sequential registry model", "identity of an address is observed by a call through it"),
  "C12": ("all schedules of 1-3 senders (waiting and forcing paths, interval_with, a concurrent stop) on mailboxes U/B0..B2; the backpressure bound is evaluated at every log position of every execution", ""),
+ "C03": ("all schedules of 1-2 client programs over send/call/stop (three entry points)/restart/drop/feed/close on plain actors (three strategies, mailbox U/B1, start failure, an interval tick queued) and stream-attached actors (four spawn paths, four stream shapes); the callback word of every execution is run through the started/handle*/[finished]/stopped automaton", ""),
+ "C05": ("all schedules (deviation-bounded for the larger timer scenes) of handle-manipulation scripts of 1-2 clients plus a weak observer, with interval / slow interval_with / delayed_exec / broker subscription active; strong handles are tracked on the harness side and the alive-while-strong, last-drop-drains-and-terminates and upgrade clauses are evaluated on every execution", ""),
+ "C06": ("every single fault of the alphabet (start error/panic, handler panic, stopped panic, timeout failure, cancellation before the j-th poll) applied to actor A in sub-scenes (pending/later operations, awaiters+owner, bystander, children, timers, registry; all schedules) and in the full scene (deviation-bounded); containment clauses on every execution", ""),
+ "C09": ("all schedules of single-client broker programs and deviation-bounded schedules of 2-3 client programs over subscribe (client- and context-side), re-subscribe, unsubscribe, publish (three ways), drop/stop of subscribers on 1-2 topics; exactly-once, must/must-not deliver, common order and keep-alive clauses on every execution", ""),
+ "C10": ("timer configurations (four kinds x periods 1-3, registered in started() or a handler, one or two timers) x termination (stop/drop/panic/timeout failure/never) at virtual times 0-6 x mailbox U/B0/B1 x instant/slow handlers, in discrete-event time (exact clauses) and with timer expiry racing runnable tasks (one-sided clauses); all schedules, task census at the end", ""),
+ "C11": ("timeouts 1/2/5 x message sequences of length 1-3 with durations {0,t-1,t,t+1,2t} x fail_on_timeout x mailbox U/B1 x two client layouts, plus the no-timeout configuration; all schedules including the select! tie-break; completion / abandonment / exact abandonment time / state-intact clauses", ""),
+ "C13": ("streams (empty, finite ready, fed in bursts then closed or left open, never ready) x spawn path x 0-2 client ops (send/call/stop/ctx-stop/drop) x instant/yielding handlers; all schedules and all outcomes of the loop's select! tie-break; item order/once/no-loss, handler-never-abandoned, finished-then-stopped and termination clauses", ""),
+ "C16": ("actor trees of 2-3 nodes (depth up to 2, children under two broadcast types or add_child, some also held outside) x every parent termination cause (incl. cancellation before the j-th poll) x 0-2 broadcasts; all schedules for two-node trees, deviation-bounded for larger ones", ""),
  "C14": ("all schedules of termination cause x awaiting pattern x observer kind; stopped()/running() answers compared with the termination step on every execution", ""),
  "C15": ("every non-empty subset of {Addr, OwningAddr, Sender, Caller} as the only surviving strong handles, built through three conversion paths, with self-stop, self-restart, interval, delayed_send and every weak upgrade probed; all schedules", ""),
  "C17": ("all schedules of owner scripts (join, repeated and concurrent joins, consume, consume_sync, detach, to_addr+drop, late variants) against submitters, a stopper and failure causes; join-after-termination, final-state, handed-out-once clauses on every execution", ""),
